@@ -290,15 +290,15 @@ VARIANTS += [
 ]
 VARIANTS += [
     V("C04", "wildcard test collapsed to one comparison", VIS,
-      "                                (\n                                    (is_from_same_package and wildcard_import.module_name == module_name)\n                                    or (is_from_another_package and wildcard_import.module_name == module_qname)\n                                )\n",
+      "                                (\n                                    (is_from_same_package and wildcard_import.module_name == module_name)\n                                    or (\n                                        is_from_another_package\n                                        and module_qname\n                                        in {\n                                            wildcard_import.module_name,\n                                            f\"{reexport_source.id.replace('/', '.')}.{wildcard_import.module_name}\",\n                                        }\n                                    )\n                                )\n",
       "                                wildcard_import.module_name == (module_name if is_from_same_package else module_qname)\n", "C04.REEXPORT-TABLE"),
     V("C04", "by-name alias test inverted", VIS, "                                qualified_import.alias is not None\n                                and not is_internal(qualified_import.alias)\n                                or (qualified_import.alias is None and not_internal)",
       "                                qualified_import.alias is not None\n                                and is_internal(qualified_import.alias)\n                                or (qualified_import.alias is None and not_internal)", "C04.REEXPORT-"),
     V("C04", "whole-module import ignores private parent", VIS, "                                and not_internal\n                                and (isinstance(parent, Module) or parent.is_public)\n                            ):\n                                # If the module name or alias is not internal, check if the parent is public",
       "                                and not_internal\n                            ):\n                                # If the module name or alias is not internal, check if the parent is public", "C04.REEXPORT-TABLE"),
     V("C04", "benign: wildcard disjuncts swapped", VIS,
-      "                                    (is_from_same_package and wildcard_import.module_name == module_name)\n                                    or (is_from_another_package and wildcard_import.module_name == module_qname)\n",
-      "                                    (is_from_another_package and wildcard_import.module_name == module_qname)\n                                    or (is_from_same_package and wildcard_import.module_name == module_name)\n", None),
+      "                                    (is_from_same_package and wildcard_import.module_name == module_name)\n                                    or (\n                                        is_from_another_package\n                                        and module_qname\n                                        in {\n                                            wildcard_import.module_name,\n                                            f\"{reexport_source.id.replace('/', '.')}.{wildcard_import.module_name}\",\n                                        }\n                                    )\n",
+      "                                    (\n                                        is_from_another_package\n                                        and module_qname\n                                        in {\n                                            wildcard_import.module_name,\n                                            f\"{reexport_source.id.replace('/', '.')}.{wildcard_import.module_name}\",\n                                        }\n                                    )\n                                    or (is_from_same_package and wildcard_import.module_name == module_name)\n", None),
 ]
 VARIANTS += [
     V("C20", "marker raised inside the superclass loop", GEN,
@@ -632,4 +632,9 @@ VARIANTS += [
 VARIANTS += [
     V("C02", "type variable recorded under mypy's dotted name again", VIS, "name=mypy_type.name.split(\".\")[-1], upper_bound=type_", "name=mypy_type.name, upper_bound=type_", "C02.NAME-PIPELINE"),
     V("C02", "benign: last segment of the type variable name taken with rpartition", VIS, "name=mypy_type.name.split(\".\")[-1], upper_bound=type_", "name=mypy_type.name.rpartition(\".\")[2], upper_bound=type_", None),
+]
+VARIANTS += [
+    V("C04", "star import through a deeper relative path not resolved again", VIS,
+      "                                        and module_qname\n                                        in {\n                                            wildcard_import.module_name,\n                                            f\"{reexport_source.id.replace('/', '.')}.{wildcard_import.module_name}\",\n                                        }",
+      "                                        and wildcard_import.module_name == module_qname", "C04.REEXPORT-GUARDS"),
 ]
